@@ -71,6 +71,7 @@ class Contract:
         self.verify = verify
         self.no_self_inline = no_self_inline
         self.variant = variant            # several contracts for one function (e.g. per dispatch class)
+        self.call_variants = {}           # for callers: which variant of a variant-only callee a call goes through
         self.lemma_src = lemma_src        # a lemma: a small program over contracts (asserts are obligations)
         self.lemma_module = lemma_module
         # {callee qualname: {loop ordinal: LoopSpec}}: callees inlined (mechanically, from their real source) at this
